@@ -227,7 +227,16 @@ pub fn workers(ctx: &Ctx, n: usize, f: impl Fn(&Ctx) -> Outcome) -> Outcome {
     if ctx.replay.is_some() || n <= 1 {
         return f(ctx);
     }
+    // A check may call `workers` several times (phases). The parent tags the workers of its k-th
+    // call with VH_PHASE=k; a worker skips the calls before its phase (they belong to other
+    // worker sets) and runs + exits at its own.
+    static CALLS: std::sync::atomic::AtomicUsize = std::sync::atomic::AtomicUsize::new(0);
+    let phase = CALLS.fetch_add(1, std::sync::atomic::Ordering::SeqCst);
     if ctx.worker.is_some() {
+        let mine: usize = std::env::var("VH_PHASE").ok().and_then(|v| v.parse().ok()).unwrap_or(0);
+        if phase != mine {
+            return Outcome::default();
+        }
         let o = f(ctx);
         println!("@@OUTCOME {}", serde_json::to_string(&o).unwrap());
         std::process::exit(0);
@@ -239,6 +248,7 @@ pub fn workers(ctx: &Ctx, n: usize, f: impl Fn(&Ctx) -> Outcome) -> Outcome {
         let child = std::process::Command::new(&exe)
             .args(&args)
             .env("VH_WORKER", format!("{i}/{n}"))
+            .env("VH_PHASE", phase.to_string())
             .stdout(std::process::Stdio::piped())
             .stderr(std::process::Stdio::inherit())
             .spawn()
